@@ -27,7 +27,7 @@ Judge(i) ==
 \* (the statement promises framing and round trip, not field positions: informational)
 PayloadDrift(i) ==
   LET s == D.samples[i + 1] IN
-  IF s.err # "" \/ s.proto \notin {"RRS", "LP", "TMP"} \/ Len(s.frame) < 7 THEN "ok"
+  IF s.err # "" \/ s.proto \notin {"RRS", "LP", "TMP", "RCP"} \/ Len(s.frame) < 7 THEN "ok"
   ELSE IF SubSeq(s.frame, 6, Len(s.frame) - 2) # Payload(s.proto, s.op, s.lay) THEN "payload-differs-from-layout/" \o s.proto \o "/" \o s.op
   ELSE IF s.proto = "TMP" /\ s.frame[2] # TmpFlags(s.lay) THEN "tmp-flag-octet-differs-from-layout"
   ELSE "ok"
